@@ -26,6 +26,7 @@ pub(crate) fn stub_is_valid_for_ip(id: &Id, ip: std::net::Ipv4Addr) -> bool {
 
 /// K-total: is_stale / should_ping / valid_token are exactly the 15 min / 10 s / 5 min thresholds
 #[kani::proof]
+#[kani::unwind(3)]
 #[kani::stub(std::time::Instant::now, clock::mock_now)]
 #[kani::stub(std::time::Instant::elapsed, clock::mock_elapsed)]
 fn c14_node_age_thresholds() {
@@ -45,6 +46,7 @@ fn c14_node_age_thresholds() {
 
 /// K-total: Node::new stamps the node with the current time and no token
 #[kani::proof]
+#[kani::unwind(22)]
 #[kani::stub(std::time::Instant::now, clock::mock_now)]
 #[kani::stub(std::time::Instant::elapsed, clock::mock_elapsed)]
 fn c14_new_node_is_fresh() {
